@@ -22,7 +22,7 @@ KINDS = [
     (re.compile(r'assertion failed'), 'assertion'),
     (re.compile(r'invariant not satisfied'), 'invariant'),
     (re.compile(r'decreases not satisfied|could not prove termination'), 'decreases'),
-    (re.compile(r'index out of bounds|slice index|possible.*out of (bounds|range)'), 'bounds'),
+    (re.compile(r'index out of bounds|index in bounds|slice index|possible.*out of (bounds|range)|precondition not met'), 'bounds'),
     (re.compile(r'recommendation not met'), 'recommends'),
     (re.compile(r'Resource limit|rlimit|timed? ?out|canceled'), 'rlimit'),
     (re.compile(r'trait (method )?implementation|does not satisfy the trait'), 'trait-contract'),
